@@ -117,6 +117,8 @@ pub struct MasterRig {
     partial: Option<(u16, u8, Vec<u8>)>,
     pub start: tokio::time::Instant,
     pub task_failure: Option<Fail>,
+    /// request fragments a helper drained while looking for something else: returned first by `take_requests`
+    pub requeue: Vec<(u64, u16, Vec<u8>)>,
 }
 
 impl MasterRig {
@@ -160,7 +162,7 @@ impl MasterRig {
             polls.clone(),
         );
         let task = tokio::spawn(fut);
-        MasterRig { channel, polls, assocs: BTreeMap::new(), peer: None, conns, task: Some(task), partial: None, start, task_failure: None }
+        MasterRig { channel, polls, assocs: BTreeMap::new(), peer: None, conns, task: Some(task), partial: None, start, task_failure: None, requeue: vec![] }
     }
 
     pub fn now_ms(&self) -> u64 {
@@ -325,13 +327,12 @@ impl MasterRig {
 
     /// the application fragments only: (time, destination, parsed)
     pub fn take_requests(&mut self) -> Vec<(u64, u16, Fragment)> {
-        self.take_tx()
-            .into_iter()
-            .filter_map(|t| match t {
-                MTx::Fragment { t, dst, bytes } => Fragment::parse(&bytes).map(|f| (t, dst, f)),
-                _ => None,
-            })
-            .collect()
+        let mut out: Vec<(u64, u16, Fragment)> = std::mem::take(&mut self.requeue).into_iter().filter_map(|(t, dst, bytes)| Fragment::parse(&bytes).map(|f| (t, dst, f))).collect();
+        out.extend(self.take_tx().into_iter().filter_map(|t| match t {
+            MTx::Fragment { t, dst, bytes } => Fragment::parse(&bytes).map(|f| (t, dst, f)),
+            _ => None,
+        }));
+        out
     }
 
     /// run a user request in the background; its outcome text is recorded when it resolves
